@@ -8,3 +8,10 @@ package p2p
 //@   requires p != nil
 //@   ensures result2 == nil ==> len(result1) <= len(content)
 //@   nopanic
+
+// node strings arrive in DiscoverResMsg payloads (remote input)
+//@ func (NodeID).PubKey   trusted
+//@   modifies nothing
+//@ func ParseNodeString
+//@   props C15
+//@   nopanic
